@@ -603,8 +603,69 @@ def cyclic_matrix_evaluated(repo: Repo, gi):
     return OK, f"k x n with row i = coefficients of X^(m+i) + (X^(m+i) mod g) for {len(CYCLIC_SAMPLES)} sample (n, g), n up to 31"
 
 
+def cyclic_distance_evaluated(repo: Repo):
+    """CyclicCodeEncoder.encode_message_polynomial and minimum_distance (class helpers followed; polynomials modelled by
+    gf2.BP) evaluated for three sample (n, g) with the object's generator matrix in the 'left' layout [I | P] and in the
+    'right' layout [P | I]: every message polynomial u must be encoded as u X^m + (u X^m mod g) - a multiple of g - and
+    the advertised distance must be the minimum weight over the non-zero code words (own GF(2)[x] arithmetic).
+    Returns (status, detail) or (None, reason)."""
+    from .. import gf2
+    from ..constfold import Unfoldable
+    from ..frag import FragRaise, FragReturn, run_fragment
+
+    ci = repo.cls(CYC, "CyclicCodeEncoder")
+    enc = repo.method(ci, "encode_message_polynomial")
+    md = repo.method(ci, "minimum_distance")
+    funcs = {f"self.{nm}": f.node for nm, f in ci.methods.items() if nm not in ("__init__", "forward", "minimum_distance")}
+    cases = 0
+    for nn, g in ((7, 0b1011), (7, 0b10111), (15, 0b111010001)):
+        m = g.bit_length() - 1
+        k = nn - m
+        P = [[(gf2.pmod(1 << (m + i), g) >> j) & 1 for j in range(m)] for i in range(k)]
+        eye = [[float(i == j) for j in range(k)] for i in range(k)]
+        words = {u: (u << m) ^ gf2.pmod(u << m, g) for u in range(1, 1 << k)}
+        dmin = min(bin(w).count("1") for w in words.values())
+        for layout, G in (("left", [eye[i] + [float(x) for x in P[i]] for i in range(k)]), ("right", [[float(x) for x in P[i]] + eye[i] for i in range(k)])):
+            base = {"self._length": nn, "self._dimension": k, "self._redundancy": m, "self._generator_poly": gf2.BP(g), "self.generator_matrix": G, "self._generator_matrix": G, "self.code_length": nn, "self.code_dimension": k, "self.redundancy": m}
+            attrs = dict(base)
+            for u, want in words.items():
+                try:
+                    run_fragment(enc.body, {"message_poly": gf2.BP(u)}, attrs, max_steps=200000, materialise=True, funcs={k_: v_ for k_, v_ in funcs.items() if k_ != "self.encode_message_polynomial"}, ctors={"BinaryPolynomial": gf2.BP}, attrs_live=True)
+                    return None, "encode_message_polynomial returns no value"
+                except FragReturn as r:
+                    got = r.value
+                except FragRaise:
+                    return VIOLATION, f"n = {nn}, g = {g:#b}: the message polynomial {u:#b} is rejected"
+                except (Unfoldable, TypeError, IndexError, ZeroDivisionError, ValueError, KeyError) as exc:
+                    return None, f"encode_message_polynomial not evaluable ({exc})"
+                if not isinstance(got, gf2.BP):
+                    return None, f"encode_message_polynomial returns {got!r}, not a polynomial"
+                if got.value != want:
+                    return VIOLATION, f"n = {nn}, g = {g:#b}, generator matrix in the '{layout}' layout: the message polynomial {u:#b} is encoded as {got.value:#b}; u X^m + (u X^m mod g) is {want:#b}" + (f" (the returned word leaves the remainder {gf2.pmod(got.value, g):#b} modulo g: it is not a code word, and minimum_distance(), which enumerates through this method, advertises a wrong distance)" if gf2.pmod(got.value, g) else "")
+                cases += 1
+            attrs = dict(base)
+            try:
+                run_fragment(md.body, {}, attrs, max_steps=3000000, materialise=True, funcs=funcs, ctors={"BinaryPolynomial": gf2.BP}, attrs_live=True)
+                return None, "minimum_distance returns no value"
+            except FragReturn as r:
+                got = r.value
+            except (Unfoldable, FragRaise, TypeError, IndexError, ZeroDivisionError, ValueError, KeyError, OverflowError) as exc:
+                return None, f"minimum_distance not evaluable ({exc})"
+            if got != dmin:
+                return VIOLATION, f"n = {nn}, g = {g:#b}, '{layout}' layout: minimum_distance() returns {got}; the minimum weight over the {len(words)} non-zero code words is {dmin}"
+            cases += 1
+    return OK, f"{cases} evaluations: u X^m + (u X^m mod g) for every non-zero message of (7,4), (7,3), (15,7) in both generator layouts, and the advertised distance equals the minimum code-word weight"
+
+
 def rule_cyclic_layout(repo: Repo, rep: Report) -> int:
     n = 0
+    dst_, dd_ = cyclic_distance_evaluated(repo)
+    ep_ = repo.func(CYC, "CyclicCodeEncoder.encode_message_polynomial")
+    if dst_ is None:
+        rep.undecided("CYCLIC-LAYOUT", ep_, "polynomial encoder and enumerated distance evaluated for sample (n, g)", dd_, node=ep_.node)
+    else:
+        rep.add("CYCLIC-LAYOUT", ep_, "polynomial encoder and enumerated distance evaluated for sample (n, g), generator matrix in both layouts", dst_, dd_, node=ep_.node)
+    n += 1
     gi = repo.func(CYC, "CyclicCodeEncoder._generate_systematic_matrix")
     body = statement_texts(gi)
     forms = [
